@@ -1,4 +1,5 @@
 """C10 compilation yields a valid Python AST or a user-facing Hy error."""
+from hv import core  # noqa: E402
 import ast
 import copy
 import itertools
@@ -233,7 +234,7 @@ def run(chk):
                     TASKS.append(("macro", mangle(h), ("L:" + tk,) + rest))
     import gc; gc.collect(); gc.freeze()  # forked workers then touch (copy) far fewer pages
     with mp.get_context("fork").Pool(chk.jobs) as pool:
-        res = pool.map(_work, range(len(TASKS)), chunksize=512)
+        res = core.pmap(pool, _work, range(len(TASKS)), chunksize=512)
     counts = {}
     bad_by_site = {}
     for i, v, d in res:
